@@ -95,6 +95,29 @@ def programs(n, restricted=False):
     yield from rec(0, [], {})
 
 
+def named_programs():
+    """larger shape families (4-5 nodes) that the complete enumeration does not reach"""
+    S = lambda name, **kw: dict(name=name, split="a", split_vals={"a": W("x")}, **kw)
+    U = lambda name, a, **kw: dict(name=name, a=O(a), **kw)
+    B = lambda name, a, b, **kw: dict(name=name, a=O(a), b=O(b), **kw)
+    progs = {
+        "diamond": [S("n0"), U("n1", "n0"), U("n2", "n0"), B("n3", "n1", "n2")],
+        "diamond_direct": [S("n0"), U("n1", "n0"), U("n2", "n0"), B("n3", "n1", "n2"), B("n4", "n3", "n0")],
+        "diamond_combined": [S("n0"), U("n1", "n0"), U("n2", "n0"), B("n3", "n1", "n2", combine=["n0.a"])],
+        "two_splits_fanin": [S("n0"), dict(name="n1", split="a", split_vals={"a": W("y")}), B("n2", "n0", "n1"), U("n3", "n2")],
+        "two_splits_fanin_comb": [S("n0"), dict(name="n1", split="a", split_vals={"a": W("y")}), B("n2", "n0", "n1", combine=["n0.a"]), U("n3", "n2")],
+        "chain_combine_end": [S("n0"), U("n1", "n0"), U("n2", "n1"), U("n3", "n2", combine=["n0.a"]), U("n4", "n3")],
+        "split_chain_split": [S("n0"), U("n1", "n0"), dict(name="n2", b=O("n1"), split="a", split_vals={"a": W("y")}), U("n3", "n2")],
+        "fanout_fanin_zip": [dict(name="n0", split={"T": ["a", "b"]}, split_vals={"a": W("x"), "b": W("y")}), U("n1", "n0"), U("n2", "n0"), B("n3", "n1", "n2")],
+        "nested_wf": [S("n0"), {"name": "n1", "wf": {"nodes": [dict(name="p", a=W("x")), U("q", "p")], "outs": ["q"]}, "x": O("n0")}, U("n2", "n1")],
+    }
+    out = []
+    for name, nodes in progs.items():
+        used = {s[1] for nd in nodes for k in ("a", "b", "x") for s in [nd.get(k)] if s and s[0] == "node"}
+        out.append({"nodes": nodes, "outs": [nd["name"] for nd in nodes if nd["name"] not in used][:3], "label": name})
+    return out
+
+
 def run_pydra(spec, scratch):
     from vt import tasks
     d = Path(tempfile.mkdtemp(dir=scratch))
@@ -158,14 +181,27 @@ def origin_paths(spec):
     return hits
 
 
-def classify(spec, kind):
+def classify(spec, kind, text=""):
+    """signature = what went wrong (+ for crashes/rejections the error class and a key phrase) + the structural
+    feature of the program that is involved"""
+    import re
+    if kind in ("crash", "valid-program-rejected"):
+        m = re.match(r"(\w+): (.*)", text)
+        phrase = ""
+        if m:
+            phrase = re.sub(r"[^A-Za-z ]", "", m.group(2))
+            phrase = "-".join(phrase.split()[:5])
+            kind = f"{kind}:{m.group(1)}:{phrase}"
     hits = origin_paths(spec)
+    zipcomb = any("combine" in nd and isinstance(nd.get("split"), dict) and "T" in nd["split"] for nd in spec["nodes"])
     if any(h[1] == "different-nodes" for h in hits):
-        return f"{kind}:shared-origin-via-different-nodes"
+        return f"{kind}|shared-origin-via-different-nodes"
     if any(h[1] == "same-node" for h in hits):
-        return f"{kind}:same-upstream-node-twice"
+        return f"{kind}|same-upstream-node-twice"
     if any("combine" in nd and any("." in c for c in nd["combine"]) for nd in spec["nodes"]):
-        return f"{kind}:upstream-axis-combiner"
+        return f"{kind}|upstream-axis-combiner"
+    if zipcomb:
+        return f"{kind}|combined-inner-split"
     return kind
 
 
@@ -189,7 +225,7 @@ def case(part, spec):
     if err is not None:
         text = f"{type(err).__name__}: {str(err)[:300]}"
         internal = isinstance(err, (AssertionError, KeyError, IndexError, AttributeError)) or "unhashable" in str(err)
-        part.violation(classify(spec, "crash" if internal else "valid-program-rejected"), label, text)
+        part.violation(classify(spec, "crash" if internal else "valid-program-rejected", text), label, text)
         return
     # per-node job inputs (multisets)
     got_by_node = collections.defaultdict(list)
@@ -228,7 +264,9 @@ def run(ctx):
         progs += list(programs(n))
     if not ctx.thorough:
         progs += list(programs(3, restricted=True))
+    progs += named_programs()
     ctx.coverage["programs"] = len(progs)
+    ctx.coverage["named_shape_families"] = [p["label"] for p in named_programs()]
     ctx.rule = ("every program of the grammar (node forms x wiring to constants/workflow inputs/earlier nodes x own split "
                 "{one field, outer, inner, split+upstream input} x combiner {none, own axes, upstream axes}) with "
                 + ("n<=3 nodes" if ctx.thorough else "n<=2 nodes complete, n=3 with splits only at the first node")
